@@ -56,27 +56,58 @@ pub struct Case {
     /// phase override on one vertex (numerator, denominator)
     phase: Option<(usize, i64, i64)>,
     scalar: ScalarSpec,
+    /// number of dummy vertices created first and removed afterwards (non-contiguous vertex ids)
+    gap: usize,
 }
 
 impl Case {
     fn build<G: GraphLike>(&self) -> G {
-        let mut g: G = self.spec.build();
+        let mut g: G = if self.gap == 0 {
+            self.spec.build()
+        } else {
+            // the same diagram with its ids shifted past removed vertices
+            let mut g = G::new();
+            let dummies: Vec<V> = (0..self.gap).map(|_| g.add_vertex(VType::Z)).collect();
+            let ids: Vec<V> = self
+                .spec
+                .verts
+                .iter()
+                .map(|v| {
+                    let ty = match v.kind {
+                        0 => VType::B,
+                        1 => VType::Z,
+                        _ => VType::X,
+                    };
+                    g.add_vertex_with_phase(ty, Rational64::new(v.num as i64, v.den as i64))
+                })
+                .collect();
+            for &(a, b, h) in &self.spec.edges {
+                g.add_edge_with_type(ids[a as usize], ids[b as usize], if h { EType::H } else { EType::N });
+            }
+            g.set_inputs(self.spec.inputs.iter().map(|&x| ids[x as usize]).collect());
+            g.set_outputs(self.spec.outputs.iter().map(|&x| ids[x as usize]).collect());
+            for d in dummies {
+                g.remove_vertex(d);
+            }
+            g
+        };
+        let off = if self.gap == 0 { 0 } else { self.gap };
         for &(v, q, r) in &self.coords {
-            g.set_qubit(v, q);
-            g.set_row(v, r);
+            g.set_qubit(v + off, q);
+            g.set_row(v + off, r);
         }
         for &v in &self.hboxes {
-            g.set_vertex_type(v, VType::H);
-            g.set_phase(v, Rational64::new(1, 1));
+            g.set_vertex_type(v + off, VType::H);
+            g.set_phase(v + off, Rational64::new(1, 1));
         }
         if let Some((v, n, d)) = self.phase {
-            g.set_phase(v, Rational64::new(n, d));
+            g.set_phase(v + off, Rational64::new(n, d));
         }
         *g.scalar_mut() = self.scalar.build();
         g
     }
     fn to_json(&self) -> Value {
-        json!({"spec": self.spec.to_json(), "coords": self.coords, "hboxes": self.hboxes, "phase": self.phase, "scalar": self.scalar.to_json()})
+        json!({"spec": self.spec.to_json(), "coords": self.coords, "hboxes": self.hboxes, "phase": self.phase, "scalar": self.scalar.to_json(), "gap": self.gap})
     }
 }
 
@@ -95,7 +126,8 @@ fn canon<G: GraphLike>(g: &G) -> Result<String, String> {
     let describe = |v: V| {
         let d = g.vertex_data(v);
         let r = d.phase.to_rational();
-        format!("{:?}:{}/{}:q{}:r{}", d.ty, r.numer(), r.denom(), d.qubit, d.row)
+        // coordinates compared to 12 significant digits (serde_json without float_roundtrip may move the last bit)
+        format!("{:?}:{}/{}:q{:.11e}:r{:.11e}", d.ty, r.numer(), r.denom(), d.qubit, d.row)
     };
     // sort free vertices by their description first; only permute inside groups of identical descriptions
     let mut best: Option<String> = None;
@@ -277,7 +309,7 @@ pub fn run(rep: &mut Report) {
         for_phases(base, phis, |spec| {
             watch_begin(i as u64, 0);
             st.inc("cases");
-            let case = Case { spec: spec.clone(), coords: vec![], hboxes: vec![], phase: None, scalar: if i % 3 == 0 { ScalarSpec::Unit(-1, (i % 8) as i64) } else { ScalarSpec::One } };
+            let case = Case { spec: spec.clone(), coords: vec![], hboxes: vec![], phase: None, scalar: if i % 3 == 0 { ScalarSpec::Unit(-1, (i % 8) as i64) } else { ScalarSpec::One }, gap: i % 4 };
             judge::<quizx::vec_graph::Graph>(st, &case, "vec", true);
             judge::<quizx::hash_graph::Graph>(st, &case, "hash", false);
             judge_serde(st, &case);
@@ -285,7 +317,7 @@ pub fn run(rep: &mut Report) {
             watch_end();
         });
     });
-    rep.absorb(&format!("D({},{},Phi{})", s, b, phis.len()), "all labelled diagrams: both back ends through encode/decode, hash back end through serde", true, None, t0, stats);
+    rep.absorb(&format!("D({},{},Phi{})", s, b, phis.len()), "all labelled diagrams, each built with 0..3 removed vertices in front (non-contiguous ids): both back ends through encode/decode, hash back end through serde", true, None, t0, stats);
     // (2) decorations on a few fixed shapes: phases k/d for all d <= 256, coordinates, H-boxes, scalars
     let t0 = Instant::now();
     let shapes: Vec<DiagSpec> = {
@@ -295,26 +327,32 @@ pub fn run(rep: &mut Report) {
     };
     let mut cases: Vec<Case> = vec![];
     let coordset = [0.0, 1.0, 0.5, -1.25, 7.125];
+    // arbitrary (non-dyadic, small, large, many-digit) coordinates as well
+    let wild = [1.0 / 3.0, 0.0625, -0.00025, 1234.56789, -6296.29633, 1e-7, 2.5e6, 0.1];
     for sh in &shapes {
         for d in 1..=256i64 {
             for k in [1i64, d - 1, -(d / 2).max(1), (d / 3).max(1)] {
                 if num::integer::gcd(k.abs(), d) != 1 {
                     continue;
                 }
-                cases.push(Case { spec: sh.clone(), coords: vec![], hboxes: vec![], phase: Some((0, k, d)), scalar: ScalarSpec::One });
+                cases.push(Case { spec: sh.clone(), coords: vec![], hboxes: vec![], phase: Some((0, k, d)), scalar: ScalarSpec::One, gap: (d % 3) as usize });
             }
         }
         for (a, &q) in coordset.iter().enumerate() {
             for (b2, &r) in coordset.iter().enumerate() {
                 let coords: Vec<(usize, f64, f64)> = (0..sh.verts.len()).map(|v| (v, if v % 2 == 0 { q } else { coordset[(a + v) % 5] }, if v % 2 == 1 { r } else { coordset[(b2 + v) % 5] })).collect();
-                cases.push(Case { spec: sh.clone(), coords, hboxes: vec![], phase: None, scalar: ScalarSpec::One });
+                cases.push(Case { spec: sh.clone(), coords, hboxes: vec![], phase: None, scalar: ScalarSpec::One, gap: a % 3 });
             }
         }
+        for (a, &q) in wild.iter().enumerate() {
+            let coords: Vec<(usize, f64, f64)> = (0..sh.verts.len()).map(|v| (v, wild[(a + v) % wild.len()], if v % 2 == 0 { q } else { -q })).collect();
+            cases.push(Case { spec: sh.clone(), coords, hboxes: vec![], phase: None, scalar: ScalarSpec::One, gap: a % 3 });
+        }
         for hb in [vec![0usize], vec![1], vec![0, 1]] {
-            cases.push(Case { spec: sh.clone(), coords: vec![], hboxes: hb, phase: None, scalar: ScalarSpec::One });
+            cases.push(Case { spec: sh.clone(), coords: vec![], hboxes: hb, phase: None, scalar: ScalarSpec::One, gap: 0 });
         }
         for sc in scalar_grid(quick) {
-            cases.push(Case { spec: sh.clone(), coords: vec![], hboxes: vec![], phase: None, scalar: sc });
+            cases.push(Case { spec: sh.clone(), coords: vec![], hboxes: vec![], phase: None, scalar: sc, gap: 1 });
         }
     }
     let stats = sweep(&cases, |st, i, case| {
@@ -338,7 +376,7 @@ pub fn replay(w: &Value) -> Option<Violation> {
     let phase = target["phase"].as_array().map(|p| (p[0].as_u64().unwrap() as usize, p[1].as_i64().unwrap(), p[2].as_i64().unwrap()));
     let sname = target["scalar"].as_str().unwrap_or("One").to_string();
     let scalar = scalar_grid(false).into_iter().chain((0..8).map(|k| ScalarSpec::Unit(-1, k))).find(|s| format!("{:?}", s) == sname).unwrap_or(ScalarSpec::One);
-    let case = Case { spec, coords, hboxes, phase, scalar };
+    let case = Case { spec, coords, hboxes, phase, scalar, gap: target["gap"].as_u64().unwrap_or(0) as usize };
     if w["kind"] == "serde" {
         judge_serde(&mut st, &case);
     } else if w["backend"] == "hash" {
